@@ -55,6 +55,25 @@ def _sparse(rng, s0, s1):
         d[int(rng.integers(0, s0)), :] = np.maximum(d[int(rng.integers(0, s0)), :], rng.integers(0, 2, s1))
     return d
 
+def _extremes(rng):
+    out = []
+    for (m, S) in (((3001, 3), (2048, 4)), ((2, 2500), (3, 4097)), ((1500, 2), (1501, 1)), ((70, 65), (129, 64))):
+        dt = ['int8', 'int16', 'uint8', 'int32', 'float32'][int(rng.integers(0, 5))]
+        out.append({'kind': 'pad2', 'shape': list(m), 'to': list(S), 'data': _ints(rng, m[0] * m[1], 1, 9), 'dtype': dt})
+    out.append({'kind': 'pad3', 'shape': [40, 33, 7], 'to': [64, 6], 'data': _ints(rng, 40 * 33 * 7, 1, 9), 'dtype': 'int16'})
+    for m in ((2000, 3), (3, 1800)):
+        out.append({'kind': 'subarray', 'shape': list(m), 'sub': [m[0] - 7, 2] if m[0] > m[1] else [2, m[1] - 9], 'shift': [3, 0] if m[0] > m[1] else [0, -4],
+                    'data': _ints(rng, m[0] * m[1], 1, 9), 'dtype': 'int32'})
+        d = np.zeros(m, dtype=int); d[int(rng.integers(0, m[0])), int(rng.integers(0, m[1]))] = 5; d[m[0] // 2, m[1] // 2] = 1
+        out.append({'kind': 'boundary', 'shape': list(m), 'data': [int(x) for x in d.ravel()], 'thr': 0, 'pad': [2, 1], 'scalar_pad': False,
+                    'scale': [3e-18, 1e-9, 1e12][int(rng.integers(0, 3))]})
+        out.append({'kind': 'centroid', 'shape': list(m), 'data': [int(x) for x in rng.integers(0, 4, m[0] * m[1])], 'dtype': 'uint8'})
+    out.append({'kind': 'rebin', 'shape': [1200, 6], 'f': 3, 'data': _ints(rng, 7200, 0, 120), 'dtype': 'uint8'})      # sums exceed the dtype range
+    out.append({'kind': 'rebin', 'shape': [33, 64, 4], 'f': 2, 'data': _ints(rng, 33 * 64 * 4, -100, 120), 'dtype': 'int8'})
+    out.append({'kind': 'segments', 'rings': 4, 'radius': 3.0, 'gap': 1.0, 'rotate': False, 'drop': [int(x) for x in rng.permutation(61)[:35]], 'pad': 2})
+    out.append({'kind': 'hex_ring', 'k': 40})
+    return out
+
 def generate(rng, tier):
     n = {'quick': 420, 'thorough': 9000, 'search': 2500}[tier]
     out = []
@@ -75,8 +94,13 @@ def generate(rng, tier):
             m = (int(rng.integers(1, 10)), int(rng.integers(1, 10)))
             d = _sparse(rng, *m)
             pad = [int(rng.integers(0, 3)), int(rng.integers(0, 3))] if rng.integers(0, 2) else [0, 0]
-            out.append({'kind': 'boundary', 'shape': list(m), 'data': [int(x) for x in d.ravel()], 'thr': int(rng.integers(0, 3)),
-                        'pad': pad, 'scalar_pad': bool(pad[0] == pad[1] and rng.integers(0, 2))})
+            c = {'kind': 'boundary', 'shape': list(m), 'data': [int(x) for x in d.ravel()], 'thr': int(rng.integers(0, 3)),
+                 'pad': pad, 'scalar_pad': bool(pad[0] == pad[1] and rng.integers(0, 2))}
+            if k % 5 == 0:
+                # the bounding box must not depend on the physical scale of the data: a bright core on a 3e-18 pedestal, nano-scale maps, huge counts
+                c['scale'] = [1e-18, 3e-18, 1e-9, 2.0 ** -60, 1e3, 1e12][int(rng.integers(0, 6))]
+                if rng.integers(0, 2): c['data'] = [x * 10 ** 6 if x > 1 else x for x in c['data']]
+            out.append(c)
         elif t == 6:
             f = int(rng.integers(1, 5)); cube = bool(rng.integers(0, 3) == 0)
             m = [f * int(rng.integers(1, 5)), f * int(rng.integers(1, 5))]
@@ -118,15 +142,24 @@ def generate(rng, tier):
             shift = [_dy(rng, -3, 3), _dy(rng, -3, 3)] if rng.integers(0, 4) else [0.0, 0.0]
             aa = bool(rng.integers(0, 2))
             dshift = [int(rng.integers(-2, 3)), int(rng.integers(-2, 3))]
+            far = bool(rng.integers(0, 7) == 0)
+            if far:
+                # extremes: shape much larger than the array and/or centred far outside it (integer shift)
+                D = int(np.hypot(*shp)) + 1
+                shift = [float(int(rng.integers(-3 * D, 3 * D + 1))), float(int(rng.integers(-3 * D, 3 * D + 1)))] if rng.integers(0, 3) else [0.0, 0.0]
             if t == 10:
-                out.append({'kind': 'circle', 'shape': shp, 'radius': _dy(rng, 1, 6), 'shift': shift, 'aa': aa, 'dshift': dshift})
+                rad = _dy(rng, D, 3 * D) if far else _dy(rng, 1, 6)
+                out.append({'kind': 'circle', 'shape': shp, 'radius': rad, 'shift': shift, 'aa': aa, 'dshift': dshift})
             elif t in (11, 12):
                 ang = [0.0, 0.0, 90.0, 30.0, 45.0, float(int(rng.integers(-180, 181)))][int(rng.integers(0, 6))]
-                out.append({'kind': 'rectangle', 'shape': shp, 'width': _dy(rng, 1, 9), 'height': _dy(rng, 1, 9), 'shift': shift,
+                out.append({'kind': 'rectangle', 'shape': shp, 'width': _dy(rng, D, 4 * D) if far else _dy(rng, 1, 9),
+                            'height': _dy(rng, D, 4 * D) if far and rng.integers(0, 2) else _dy(rng, 1, 9), 'shift': shift,
                             'angle': ang, 'aa': aa, 'dshift': dshift})
             else:
-                out.append({'kind': 'hexagon', 'shape': shp, 'radius': _dy(rng, 2, 7), 'shift': shift, 'rotate': bool(rng.integers(0, 2)),
-                            'aa': aa, 'dshift': dshift})
+                out.append({'kind': 'hexagon', 'shape': shp, 'radius': _dy(rng, D, 3 * D) if far else _dy(rng, 2, 7), 'shift': shift,
+                            'rotate': bool(rng.integers(0, 2)), 'aa': aa, 'dshift': dshift})
+    if tier in ('search', 'thorough'):
+        out += _extremes(rng)
     if tier == 'thorough':
         # every 2-D source/target size pair up to 9 on the rows with two column pairs: all grow/shrink/parity mixes
         for m0 in range(1, 10):
@@ -154,6 +187,11 @@ def nontrivial(c):
 
 def tags(c):
     k = c['kind']; t = [k]
+    if c.get('scale', 1) != 1: t.append('boundary:scaled-data')
+    if 'dtype' in c: t.append('dtype:' + c['dtype'])
+    if k in ('pad2', 'pad3', 'subarray', 'boundary', 'centroid', 'rebin') and max(c['shape']) > 64: t.append('large-array')
+    if k in ('circle', 'rectangle', 'hexagon') and (max(abs(x) for x in c['shift']) > 16 or c.get('radius', 0) > 16 or c.get('width', 0) > 20):
+        t.append(k + ':huge-or-far')
     if k in ('pad2', 'pad3'):
         m = c['shape'][-2:]; S = c['to']
         for ax in (0, 1):
@@ -165,7 +203,7 @@ def tags(c):
     return t
 
 # ------------------------------------------------------------------------------------------ implementation
-def _arr(c): return np.array(c['data'], dtype=float).reshape(c['shape'])
+def _arr(c): return (np.array(c['data'], dtype=c.get('dtype', 'float64')) * c.get('scale', 1)).reshape(c['shape'])
 
 def _il(a): return [int(x) for x in np.asarray(a).ravel()]
 
@@ -192,9 +230,10 @@ def impl(c):
             return {'shape': list(r.shape), 'data': _il(r)}
         if k == 'boundary':
             a = _arr(c)
-            b = lentil.boundary(a, c['thr'])
+            thr = c['thr'] * c.get('scale', 1)
+            b = lentil.boundary(a, thr)
             pad = c['pad'][0] if c['scalar_pad'] else tuple(c['pad'])
-            sl = H.boundary_slice(a, c['thr'], pad)
+            sl = H.boundary_slice(a, thr, pad)
             off = H.slice_offset(sl, a.shape)
             return {'bbox': [int(x) for x in b], 'slice': [int(sl[0].start), int(sl[0].stop), int(sl[1].start), int(sl[1].stop)],
                     'offset': [int(off[0]), int(off[1])], 'window': _il(a[sl]), 'window_shape': list(a[sl].shape)}
@@ -308,6 +347,8 @@ def compare(c, io, mo):
         if m.get('ok'): return f"implementation raised {io['exc']} ({io.get('msg')}), model answered"
         return None if m.get('err') == io['exc'] else f"implementation raised {io['exc']}, model {m.get('err')}"
     if not m.get('ok'): return f"model refused ({m.get('err')}), implementation answered"
+    if k == 'rebin' and len(c['shape']) == 3 and c.get('dtype') in ('int8', 'uint8', 'int16', 'uint16', 'int32', 'uint32'):
+        return None      # KF-C20-rebin-int-cube-wraps: judged by the oracle (the model sums in Int and cannot wrap)
     if k in ('pad2', 'pad3', 'subarray', 'rebin'):
         if io['shape'] != m['shape']: return f"shape: impl {io['shape']} model {m['shape']}"
         if io['data'] != m['data']: return f"{k}: values differ"
@@ -400,7 +441,7 @@ def oracle(c, io):
                 if r[i, j] != _centred(a, i - h // 2 + o[0], j - w // 2 + o[1]): return f'subarray[{i},{j}] is not the sample at centre-relative coordinate + shift'
         return None
     if k == 'boundary':
-        a = _arr(c); idx = np.argwhere(a > c['thr'])
+        a = _arr(c); idx = np.argwhere(a > c['thr'] * c.get('scale', 1))
         if 'exc' in io:
             return None if len(idx) == 0 else f"boundary raised {io['exc']} on a non-empty mask"
         if len(idx) == 0: return 'boundary answered on an empty mask'
@@ -422,7 +463,9 @@ def oracle(c, io):
         if not ok: return 'rebin accepted axes not divisible by the factor'
         r = np.array(io['data'], dtype=float).reshape(io['shape'])
         if io['shape'] != list(a.shape[:-2]) + [a.shape[-2] // f, a.shape[-1] // f]: return f"rebin shape {io['shape']}"
-        if not np.array_equal(r.sum((-1, -2)), a.sum((-1, -2))): return 'rebin does not preserve the sum (per slice)'
+        if not np.array_equal(r.sum((-1, -2)), a.sum((-1, -2))):
+            narrow = a.ndim == 3 and np.issubdtype(a.dtype, np.integer) and a.dtype.itemsize < 8
+            return 'rebin does not preserve the sum (per slice)' + (f' — {a.dtype} cube: the output keeps the input dtype and the bin sums wrap' if narrow else '')
         for i in range(r.shape[-2]):
             for j in range(r.shape[-1]):
                 if not np.array_equal(r[..., i, j], a[..., i * f:(i + 1) * f, j * f:(j + 1) * f].sum((-1, -2))): return f'rebin bin ({i},{j})'
@@ -511,6 +554,9 @@ def shrink(c):
 # ------------------------------------------------------------------------------------------ known finding
 def matches_finding(kf, case, msg):
     m = kf.get('match', {})
+    if kf.get('id') == 'KF-C20-rebin-int-cube-wraps':
+        return (case.get('kind') == 'rebin' and len(case.get('shape', [])) == 3 and case.get('dtype') in ('int8', 'uint8', 'int16', 'uint16', 'int32', 'uint32')
+                and 'the output keeps the input dtype and the bin sums wrap' in msg)
     if kf.get('id') != 'KF-C20-hex-gap0-shared-edge': return False
     # only the bounded shared-edge overlap is the known finding: multiplicity <= 3, shared pixels on the rim of all but one segment, at most
     # (3k^2+k axis-parallel shared edges) x (R+1 pixel centres each) + 6k^2 vertex pixels — anything more at gap 0 stays a VIOLATION
@@ -518,7 +564,10 @@ def matches_finding(kf, case, msg):
             and msg.startswith('segments overlap on shared edges only'))
 
 def replay_finding(kf):
-    """the recorded witness on the real code: neighbouring gap-0 segments share edge pixels"""
+    """the recorded witness on the real code"""
+    if kf.get('id') == 'KF-C20-rebin-int-cube-wraps':
+        c = kf['witness']; io = impl(c); msg = oracle(c, io) if 'exc' not in io else None
+        return bool(msg and matches_finding(kf, c, msg))
     if kf.get('id') != 'KF-C20-hex-gap0-shared-edge': return False
     c = kf['witness']
     io = impl(c)
